@@ -288,7 +288,12 @@ class OctetStringPayloadDecoder(AbstractSimplePayloadDecoder):
                      tagSet=None, length=None, state=None,
                      decodeFun=None, substrateFun=None,
                      **options):
-        if substrateFun:
+        # being a fragment of an enclosing constructed string?
+        isFragment = substrateFun is self.substrateCollector
+
+        if substrateFun and not (
+                isFragment and
+                tagSet[0].tagFormat != tag.tagFormatSimple):
             asn1Object = self._createComponent(asn1Spec, tagSet, noValue, **options)
 
             for chunk in substrateFun(asn1Object, substrate, length, options):
@@ -327,7 +332,12 @@ class OctetStringPayloadDecoder(AbstractSimplePayloadDecoder):
 
             header += component
 
-        yield self._createComponent(asn1Spec, tagSet, header, **options)
+        if isFragment:
+            # a constructed fragment (X.690 8.7.3): hand up the reassembled octets
+            yield header
+
+        else:
+            yield self._createComponent(asn1Spec, tagSet, header, **options)
 
     def indefLenValueDecoder(self, substrate, asn1Spec,
                              tagSet=None, length=None, state=None,
